@@ -142,5 +142,7 @@ def run(tier):
     suites_num_guard(chk)
     from . import c02
     c02.length_gates(chk)
+    from .. import engio, oblig as _ob
+    _ob.run_obligations(chk, engio.bounds_obligations())
     chk.floor('interpreters', len(t0.INTERPRETERS), 7)
     return chk.finish()
